@@ -1247,6 +1247,41 @@ def _defines(st: ast.stmt, name: str) -> bool:
                for s in ast.walk(st))
 
 
+def _while_counter(f: FuncInfo, df: DataFlow, L: ast.While, term: str):
+    """(counter, start) of a `while` series loop: the one variable that is incremented by exactly 1 once per iteration,
+    as a direct statement of the loop body after the last computation of the term, has no other definition inside the
+    loop, starts from an integer literal, and is read by the computation of the term."""
+    if any(isinstance(n, ast.Continue) for st in L.body for n in ast.walk(st)):
+        raise AnalysisError(f"{f.qualname}: `continue` inside the series loop (the counter step may be skipped)")
+    h = df.cfg.node_of(L).idx
+    body = df.cfg.loop_body_nodes(h)
+    last_term = max(j for j, st in enumerate(L.body) if _defines(st, term))
+    read = {n.id for st in L.body if _defines(st, term) for n in ast.walk(st) if isinstance(n, ast.Name)}
+    cands = []
+    for j, st in enumerate(L.body):
+        v = None
+        if isinstance(st, ast.AugAssign) and isinstance(st.op, ast.Add) and isinstance(st.target, ast.Name) and \
+                isinstance(st.value, ast.Constant) and st.value.value == 1 and not isinstance(st.value.value, bool):
+            v = st.target.id
+        elif isinstance(st, ast.Assign) and len(st.targets) == 1 and isinstance(st.targets[0], ast.Name) and \
+                Normalizer().norm(st.value) == Poly.atom(st.targets[0].id) + Poly.const(1):
+            v = st.targets[0].id
+        if v is None or v not in read:
+            continue
+        inside = [d for d in df.defs if d.var == v and d.node in body]
+        outside = [d for d in df.reaching(h, v) if d.node not in body]
+        if len(inside) != 1 or j <= last_term:
+            raise AnalysisError(f"{f.qualname}: the counter `{v}` of the series loop is not stepped exactly once after "
+                                "the term is computed")
+        if len(outside) != 1 or not (isinstance(outside[0].value, ast.Constant) and isinstance(outside[0].value.value, int)
+                                     and not isinstance(outside[0].value.value, bool) and outside[0].kind == "assign"):
+            raise AnalysisError(f"{f.qualname}: the counter `{v}` of the series loop does not start from an integer literal")
+        cands.append((v, Poly.const(outside[0].value.value)))
+    if len(cands) != 1:
+        raise AnalysisError(f"{f.qualname}: the series loop is a `while` loop without a recognisable counter")
+    return cands[0]
+
+
 def _expseries(ctx) -> None:
     repo = ctx.repo
     f = repo.function(FD, "_multislice_exponential_series")
@@ -1265,10 +1300,17 @@ def _expseries(ctx) -> None:
     ctx.require(not other_writes, f"{f.qualname}: `{acc}` is also written by `{norm_text(other_writes[0])[:50]}`" if other_writes else "")
     loops = [l for l in walk_no_nested(f.node) if isinstance(l, ast.For) and isinstance(l.target, ast.Name) and
              isinstance(l.iter, ast.Call) and call_name(l.iter) == "range" and any(_defines(s, term) for s in l.body)]
-    ctx.require(len(loops) == 1 and any(l is loops[0] for l in f.body), f"{f.qualname}: the series loop was not found")
-    L = loops[0]
-    iv = L.target.id
-    rng = _range_of(L)
+    wloops = [l for l in walk_no_nested(f.node) if isinstance(l, ast.While) and any(_defines(s, term) for s in l.body)]
+    if not loops and len(wloops) == 1 and any(l is wloops[0] for l in f.body):
+        # the same loop written with an explicit counter: k = lo; while ...: <term uses k>; k += 1
+        L = wloops[0]
+        iv, lo_poly = _while_counter(f, df, L, term)
+        rng = (lo_poly, None)
+    else:
+        ctx.require(len(loops) == 1 and any(l is loops[0] for l in f.body), f"{f.qualname}: the series loop was not found")
+        L = loops[0]
+        iv = L.target.id
+        rng = _range_of(L)
     ctx.require(rng is not None, f"{f.qualname}: series loop is not range(lo, hi)")
     callees = {n: repo.function(FD, n) for n in _SERIES_FUNCS if n in repo.module(FD).functions}
 
@@ -1680,3 +1722,190 @@ def run(ctx) -> None:  # noqa: F811
     _inner_run_c37d(ctx)
     if pending is not None:
         raise pending
+
+
+# ---- added after the seeded change C37-r6seed1: the series is returned only after its convergence test held
+_inner_run_c37e = run
+
+
+def _amp_source(e):
+    """abs(X).sum(), xp.sum(xp.abs(X)) -> X"""
+    if isinstance(e, ast.Call) and last_attr(e) == "sum":
+        inner = e.func.value if isinstance(e.func, ast.Attribute) and not (
+            isinstance(e.func.value, ast.Name) and e.args) else (e.args[0] if e.args else None)
+        if isinstance(inner, ast.Call) and last_attr(inner) in ("abs", "absolute") and len(inner.args) == 1 and \
+                isinstance(inner.args[0], ast.Name):
+            return inner.args[0].id
+    return None
+
+
+class _AmpNorm(FlowNormalizer):
+    """amplitudes of the result / of the series term become atoms AMP:<role>; a name counts as an amplitude when every
+    definition that reaches the test computes the amplitude of the same array."""
+
+    def __init__(self, df, at, roles: dict):
+        super().__init__(df, at, call_hook=self._hook)
+        self.roles = roles
+
+    def _hook(self, nz, c):
+        s = _amp_source(c)
+        return Poly.atom("AMP:" + self.roles[s]) if s in self.roles else None
+
+    def _name(self, name):
+        rd = self.df.reaching(self._at[-1], name)
+        srcs = {_amp_source(d.value) if (d.strong and d.kind == "assign" and isinstance(d.value, ast.expr)) else None
+                for d in rd}
+        if len(rd) >= 1 and len(srcs) == 1 and next(iter(srcs)) in self.roles:
+            return Poly.atom("AMP:" + self.roles[next(iter(srcs))])
+        return super()._name(name)
+
+
+def _conv_polarity(df, at: int, l: ast.expr, op: ast.cmpop, r: ast.expr, roles: dict):
+    """+1: the comparison being true bounds the amplitude of the series term from above by a tolerance (a symbolic
+    quantity, or a literal fraction < 1 of the wave amplitude); -1: its being false does; None: neither."""
+    if not isinstance(op, (ast.Lt, ast.LtE, ast.Gt, ast.GtE)):
+        return None
+    nz = _AmpNorm(df, at, roles)
+    d = nz.norm(l) - nz.norm(r)
+    if isinstance(op, (ast.Gt, ast.GtE)):
+        d = -d
+    T = "AMP:term"
+    tm = {m: c for m, c in d.terms.items() if any(a == T for a, _ in m)}
+    if not tm:
+        return None
+    signs = {(1 if c > 0 else -1) * (1 if dict(m)[T] > 0 else -1) for m, c in tm.items()}
+    if len(signs) != 1:
+        return None
+    up = signs == {1}  # d grows with the term amplitude: d <= 0 is an upper bound on it
+    symbolic = any(not a.startswith("AMP:") for m in d.terms for a, _ in m)
+    if not symbolic:
+        rest = {m: c for m, c in d.terms.items() if m not in tm}
+        if len(tm) != 1 or len(rest) != 1:
+            return None
+        (m1, c1), = tm.items()
+        (m2, c2), = rest.items()
+        ratio = Poly({m1: c1}) * Poly({m2: c2}).inverse()  # c * AMP:term / AMP:wave
+        want = Poly.atom(T) * Poly.atom("AMP:wave").inverse()
+        k = (ratio * want.inverse()).const_value()
+        if k is None or k == 0:
+            return None
+        bound = -1 / k  # term / wave  <(=)  bound   (or >(=) for a lower bound)
+        if not (0 < bound < 1):
+            return None
+    return 1 if up else -1
+
+
+def _converged(ctx) -> None:
+    from ..rules.exitpaths import Explorer, split_compare
+
+    repo = ctx.repo
+    f = repo.function(FD, "_multislice_exponential_series")
+    df = DataFlow(f.node)
+    cfg = df.cfg
+    rets = [r for r in walk_no_nested(f.node) if isinstance(r, ast.Return) and r.value is not None]
+    ctx.require(rets and all(isinstance(r.value, ast.Name) for r in rets) and len({r.value.id for r in rets}) == 1,
+                f"{f.qualname}: the result is not one accumulated variable")
+    acc = rets[0].value.id
+    adds = {_adds_to(st, acc) for st in walk_no_nested(f.node) if isinstance(st, ast.stmt) and _adds_to(st, acc)}
+    ctx.require(len(adds) == 1, f"{f.qualname}: cannot identify the series term added to `{acc}`")
+    term = next(iter(adds))
+    loops = [l for l in walk_no_nested(f.node) if isinstance(l, (ast.For, ast.While)) and
+             any(_defines(s, term) for s in l.body) and
+             any(_adds_to(s, acc) for st in l.body for s in ast.walk(st) if isinstance(s, ast.stmt))]
+    ctx.require(len(loops) == 1, f"{f.qualname}: the series loop was not found")
+    L = loops[0]
+    hL = cfg.node_of(L).idx
+    roles = {acc: "wave", term: "term"}
+    cache: dict = {}
+
+    def polarity(at, l, op, r):
+        k = (at, ast.dump(l), type(op).__name__, ast.dump(r))
+        if k not in cache:
+            cache[k] = _conv_polarity(df, at, l, op, r, roles)
+        return cache[k]
+
+    conv_tests: dict[str, None] = {}
+
+    def on_edge(node, label, atoms, marks):
+        m = set(marks)
+        if node.idx == hL:
+            m.add("passed")
+            if label == "T":
+                m.discard("conv")
+                m.discard("exhausted")
+            else:
+                m.add("exhausted")
+        for a, t in atoms:
+            if not isinstance(a, ast.Compare):
+                continue
+            for l, op, r in split_compare(a):
+                pol = polarity(node.idx, l, op, r)
+                if pol is not None:
+                    conv_tests.setdefault(norm_text(a), None)
+                if (pol == 1 and t) or (pol == -1 and not t):
+                    m.add("conv")
+        return m
+
+    ex = Explorer(f.node, df, on_edge=on_edge).run()
+    # an unreadable loop header: nothing is known about the loop variable after the loop — do not guess
+    if isinstance(L, ast.For) and ex._range(L) is None:
+        tnames = {n.id for n in ast.walk(L.target) if isinstance(n, ast.Name)}
+        body = cfg.loop_body_nodes(hL)
+        for n in cfg.nodes:
+            if n.kind == "test" and n.idx not in body and tnames & {x.id for x in ast.walk(n.ast.test) if isinstance(x, ast.Name)}:
+                raise AnalysisError(f"{f.qualname}: a test after the series loop reads its loop variable, but the loop is "
+                                    f"not over range(lo, hi): `{norm_text(L.iter)[:50]}`")
+    ctx.require(bool(conv_tests), f"{f.qualname}: no test that bounds the amplitude of the series term by a tolerance")
+    through = [(idx, st) for idx, st in ex.outcomes if "passed" in st.marks]
+    good = [(idx, st) for idx, st in through if "conv" in st.marks]
+    bad = [(idx, st) for idx, st in through if "conv" not in st.marks]
+    ctx.require(bool(good) or bool(bad), f"{f.qualname}: no normal exit behind the series loop")
+    cons = f"{f.qualname}:returns only a converged series"
+    can_exhaust = any(cfg.elabel.get((hL, s_)) == "F" for s_ in cfg.nodes[hL].succ)
+    tests = " / ".join(f"`{t}`" for t in conv_tests)
+    loop_txt = norm_text(L.iter) if isinstance(L, ast.For) else norm_text(L.test)
+    if not bad:
+        ctx.ok("R-CONVERGED", cons, f.loc(L),
+               f"{len(good)} path state(s) reach a normal exit behind the series loop, each through the edge of {tests} "
+               f"on which the term is below the tolerance; " + (
+                   f"the path on which `{loop_txt}` is used up ends in a raise" if can_exhaust else
+                   "the loop has no exhaustion edge, it is left by break / return / raise only")
+               + (f" ({len(ex.pruned)} infeasible edge(s) pruned)" if ex.pruned else ""))
+        return
+    seen = set()
+    for idx, st in bad:
+        kind = "exhausted" if "exhausted" in st.marks else "left-untested"
+        if kind in seen:
+            continue
+        seen.add(kind)
+        node = cfg.nodes[idx]
+        exit_txt = f"`{norm_text(node.ast)[:40]}`" if isinstance(node.ast, ast.Return) else "the end of the function"
+        dead = []
+        for pidx, lab, txt in ex.pruned:
+            if pidx not in cfg.loop_body_nodes(hL) and pidx != hL:
+                eq = ", ".join(f"{n} == {_pretty(p)}" for n, p in sorted(st.eqs, key=lambda x: x[0]))
+                dead.append(f"`{txt}` is never {'true' if lab == 'T' else 'false'} there" + (f" ({eq})" if eq else ""))
+        if kind == "exhausted":
+            why = (f"when `{loop_txt}` is used up without the convergence test {tests} ever holding, control still reaches "
+                   f"{exit_txt}" + ("; " + "; ".join(dead) if dead else "") + ": a truncated, non-converged Taylor series "
+                   "is returned as if it were exp(i dz H) applied to the wave — it is not unitary, so vacuum propagation "
+                   "does not preserve the intensity of a band-limited wave; this path has to end in a raise")
+        else:
+            why = (f"the series loop can be left towards {exit_txt} in an iteration in which the convergence test {tests} "
+                   "did not hold: a truncated, non-converged Taylor series is returned, which is not unitary")
+        ctx.violation("R-CONVERGED", cons, f.loc(node.ast) if node.ast is not None else f.loc(L), why, key_detail=kind)
+
+
+def run(ctx) -> None:  # noqa: F811
+    from ..rules import deferred
+
+    ctx.rule("R-CONVERGED", "_multislice_exponential_series leaves normally only on paths on which, in the last iteration "
+             "of the series loop, a test held that bounds the amplitude of the series term by the tolerance (an upper "
+             "bound on |term| relative to |wave| by a symbolic quantity or a literal fraction < 1; the divergence test "
+             "|term| <= |wave| is not one).  Decided path-sensitively on the CFG with truth values of flags and linear "
+             "facts about counters: after `for k in range(a, b)` is used up, k == b - 1 (or the loop ran zero times: "
+             "b <= a and k is unbound / unchanged); after `while T` is left through its condition, not T; edges whose "
+             "test these facts refute are pruned, every remaining path from the exhaustion edge must reach a raise "
+             "before a normal exit.  Necessary for intensity preservation: the truncated Taylor polynomial of "
+             "exp(i dz H) is not unitary, only the converged series is (to the tolerance)")
+    deferred.run(ctx, lambda: _converged(ctx), _inner_run_c37e)
